@@ -178,6 +178,39 @@ func genTable(r *kit.Rand) []string {
 	return lines
 }
 
+// genCollision: tables in which several entries spell the SAME node (with different privilege lists); queried
+// with azn (24 NewUser calls each), so a decision that depends on Go's map iteration order shows up.
+func genCollision(r *kit.Rand) []string {
+	g := map[string][]int{}
+	alt := map[string][]string{
+		"/":      {"//", "/.", "/x/.."},
+		"/a":     {"/a/", "//a", "/a/.", "/b/../a"},
+		"/a/b":   {"/a/b/", "/a//b", "/a/./b", "/a/b/c/.."},
+		"/a/b/c": {"/a/b/c/", "/a/b//c"},
+		"/a/bc":  {"/a/bc/", "/a/./bc"},
+		"/b":     {"/b/", "/a/../b"},
+		"/b/a":   {"/b/a/", "/b//a"},
+	}
+	for _, node := range universe {
+		switch r.Intn(4) {
+		case 0:
+		case 1:
+			g[node] = kit.Pick(r, privLists)
+		default:
+			g[node] = kit.Pick(r, privLists)
+			g[kit.Pick(r, alt[node])] = kit.Pick(r, privLists)
+			if r.Chance(1, 3) {
+				g[kit.Pick(r, alt[node])] = kit.Pick(r, privLists)
+			}
+		}
+	}
+	lines := []string{"user u pw 0 " + grantsToken(g)}
+	for _, q := range cleanQueries() {
+		lines = append(lines, "azn u "+kit.Esc(q))
+	}
+	return lines
+}
+
 func genExhaustiveTables(out *kit.Out) {
 	opts := [][]int{nil, {2}, {4}, {16}}
 	qs := cleanQueries()
@@ -211,6 +244,8 @@ var urlPaths = []string{
 	"/kapacitor/v1/tasks", "/kapacitor/v1/tasks/x", "/kapacitor/v1/tasks/x/y", "/kapacitor/v1/tasks/", "/kapacitor/v1/tasksx",
 	"/kapacitor/v1/write", "/write", "/kapacitor/v1/ping", "/kapacitor/v1/nothing", "/", "/kapacitor/v1",
 	"/kapacitor/v1preview/tasks", "/kapacitor/v1preview/tasks/x", "/kapacitor/v1preview/write", "/kapacitor/v1preview/ping", "/kapacitor/v1preview/",
+	"/kapacitor/v1/:routes", "/kapacitor/v1/debug/vars", "/kapacitor/v1/debug/pprof/", "/kapacitor/v1/debug/pprof/cmdline",
+	"/kapacitor/v1/debug/pprof/symbol", "/kapacitor/v1/debug/pprof/heap", "/kapacitor/v1preview/debug/vars", "/kapacitor/v1/debug",
 	// path tricks: the mux redirects them, nothing may be served
 	"/kapacitor/v1/tasks/x/../y", "/kapacitor/v1/tasks//x", "/kapacitor/v1/ping/../tasks", "/kapacitor/v1/./tasks", "/kapacitor/v1/tasks/..",
 	"/kapacitor/v1/tasks/x/", "kapacitor/v1/tasks", "/kapacitor/v1/ping/../write", "/kapacitor//v1/write", "/kapacitor/v1preview/../v1/tasks",
@@ -314,8 +349,13 @@ func genHTTP(r *kit.Rand) []string {
 	}
 	for i := 0; i < 120; i++ {
 		ra := "1"
-		if r.Chance(1, 10) {
+		switch r.Intn(10) {
+		case 0:
 			ra = "0"
+		case 1:
+			ra = "2"
+		case 2, 3, 4:
+			ra = "3"
 		}
 		m := httpMethods[0]
 		if r.Chance(9, 10) {
@@ -323,9 +363,9 @@ func genHTTP(r *kit.Rand) []string {
 		} else {
 			m = kit.Pick(r, httpMethods)
 		}
-		p := kit.Pick(r, urlPaths[:16])
+		p := kit.Pick(r, urlPaths[:24])
 		if r.Chance(1, 6) {
-			p = kit.Pick(r, urlPaths[16:])
+			p = kit.Pick(r, urlPaths[24:])
 		}
 		if r.Chance(1, 3) {
 			p = kit.Pick(r, []string{"/kapacitor/v1/write", "/write", "/kapacitor/v1preview/write"})
@@ -415,6 +455,9 @@ func generate(out *kit.Out, f kit.Flags) {
 		emit(out, fmt.Sprintf("t%d", i), execCase(genTable(r.Fork())))
 		if i%3 == 0 {
 			emit(out, fmt.Sprintf("h%d", i), execCase(genHTTP(r.Fork())))
+		}
+		if i%4 == 1 {
+			emit(out, fmt.Sprintf("c%d", i), execCase(genCollision(r.Fork())))
 		}
 	}
 	if thorough && exhaustive && f.Extra["notables"] == "" {
